@@ -226,6 +226,10 @@ def pair(kind, i):
     elif kind == "publish":
         a = {"t1": {"action": "core.noop", "next": [{"publish": "p=" + short + " q=3", "do": "t2"}]}, "t2": {"action": "core.echo", "input": {"m": "<% ctx().p %>"}}}
         b = {"t1": {"action": "core.noop", "next": [{"publish": [{"p": longv}, {"q": 3}], "do": "t2"}]}, "t2": {"action": "core.echo", "input": {"m": "<% ctx().p %>"}}}
+    elif kind == "publish-dup":
+        # the same variable assigned twice in one inline publish, with a reader in between
+        a = {"t1": {"action": "core.noop", "next": [{"publish": "p=\"first\" q=<% ctx().p %> p=" + short, "do": "t2"}]}, "t2": {"action": "core.echo", "input": {"m": "<% ctx().q %>", "n": "<% ctx().p %>"}}}
+        b = {"t1": {"action": "core.noop", "next": [{"publish": [{"p": "first"}, {"q": "<% ctx().p %>"}, {"p": longv}], "do": "t2"}]}, "t2": {"action": "core.echo", "input": {"m": "<% ctx().q %>", "n": "<% ctx().p %>"}}}
     elif kind == "do":
         spell = ["t2, t3", "t2,t3", "t2 ,t3", "t2,  t3"][i % 4]
         a = {"t1": {"action": "core.noop", "next": [{"publish": [{"p": "v"}], "do": spell}]}, "t2": {"action": "core.echo", "input": {"m": "<% ctx().p %>"}}, "t3": {"action": "core.noop"}}
@@ -304,7 +308,7 @@ def obligations(tier):
             d["params"] = {"maxlen": 10 if cls in ("yaql", "jinja") else 12, "cls": cls}
             obs.append(d)
     obs.append({"id": "C20.e3.values", "prop": "C20", "kind": "e3", "body": "vt.harness.C20:values", "params": {"per_class": 30 if tier == "quick" else 120}, "fixed": {}, "timeout": 1800})
-    for kind, n in [("action", len(VALUES)), ("publish", len(VALUES)), ("do", 4), ("with", 2), ("continue", 1)]:
+    for kind, n in [("action", len(VALUES)), ("publish", len(VALUES)), ("publish-dup", 6), ("do", 4), ("with", 2), ("continue", 1)]:
         x = ob("C20", "e2c.twin." + kind, "vt.harness.C20:notation_twin", {"kind": kind, "n": n}, timeout=600)
         x["antecedents"] = ["c20_pairs"]
         obs.append(x)
